@@ -543,8 +543,30 @@ type guard struct {
 	ok                                bool // the `ok` of matchV2 was tested
 }
 
+// localDefs: `name := <tests of req.Method only>` statements at the top of ServeHTTP: the name stands for its definition
+var localDefs = map[string]ast.Expr{}
+
+// methodOnly: a disjunction/conjunction of `req.Method == http.MethodX` tests and nothing else
+func methodOnly(e ast.Expr) bool {
+	switch x := e.(type) {
+	case *ast.ParenExpr:
+		return methodOnly(x.X)
+	case *ast.BinaryExpr:
+		if x.Op == token.LOR || x.Op == token.LAND {
+			return methodOnly(x.X) && methodOnly(x.Y)
+		}
+		return x.Op == token.EQL && src(x.X) == "req.Method" && strings.HasPrefix(src(x.Y), "http.Method")
+	}
+	return false
+}
+
 func classify(e ast.Expr, g *guard) {
 	for _, c := range conj(e) {
+		if id, ok := c.(*ast.Ident); ok {
+			if def, ok := localDefs[id.Name]; ok {
+				c = def
+			}
+		}
 		s := src(c)
 		switch {
 		case s == "ok":
@@ -740,7 +762,15 @@ func genRoutes() string {
 		unrec("ServeHTTP not found")
 	} else {
 		var chain *ast.IfStmt
+		localDefs = map[string]ast.Expr{}
 		for _, st := range serve.Body.List {
+			// a local name for a test of the request method decides nothing by itself: it is read where it is used
+			if as, ok := st.(*ast.AssignStmt); ok && as.Tok == token.DEFINE && len(as.Lhs) == 1 && len(as.Rhs) == 1 && chain == nil {
+				if id, ok := as.Lhs[0].(*ast.Ident); ok && methodOnly(as.Rhs[0]) {
+					localDefs[id.Name] = as.Rhs[0]
+					continue
+				}
+			}
 			if is, ok := st.(*ast.IfStmt); ok && is.Init != nil && strings.Contains(src(is.Init), "matchV2(") {
 				if chain != nil {
 					unrec(pos(is) + " second routing chain")
